@@ -217,13 +217,32 @@ def run(ctx):
     for fmt in ("complex", "quaternion"):
         vh = sym_quat("vh", (n, 1))
         lam_mag = Poly.atom("lam_mag")
+        seen = []
+
+        def s_pi(it, A, *a, seen=seen, **kw):
+            names = prog.func("utils", "power_iteration").params()[1:]
+            kw = dict(kw, **dict(zip(names, a)))          # positional spelling of the same call
+            seen.append((A, (), kw))
+            return vh.copy(), lam_mag
         it, d = new_interp(ctx, chooser=lambda *a: False,
                            summaries={"utils:_is_hermitian_quat": lambda it, A, atol=1e-12: True,
-                                      "utils:power_iteration": lambda it, A, **kw: (vh.copy(), lam_mag)})
+                                      "utils:power_iteration": s_pi})
         A = sym_quat("a", (n, n))
-        st, out = run_guarded(lambda: it.run(f_nh, [A], dict(eigenvalue_format=fmt)))
+        EIG, MAXIT = Poly.atom("eig_tol"), Poly.atom("max_iterations")
+        # res_tol is documented as float | None: the fast path must not hand it to a routine that needs a number
+        st, out = run_guarded(lambda: it.run(f_nh, [A], dict(eigenvalue_format=fmt, eig_tol=EIG, max_iterations=MAXIT, res_tol=None)))
         tag = f"nonhermitian variant, Hermitian fast path, format={fmt}"
         ok, why = st == "ok", str(out) if st != "ok" else ""
+        if ok:
+            fw = (len(seen) == 1 and seen[0][0] is A and not seen[0][1]
+                  and set(seen[0][2]) <= {"max_iterations", "tol", "return_eigenvalue", "verbose"}
+                  and seen[0][2].get("tol") is EIG and seen[0][2].get("max_iterations") is MAXIT
+                  and seen[0][2].get("return_eigenvalue") is True)
+            ctx.ob("C19.D2.forwarding", tag, fw,
+                   "the Hermitian fast path does not call power_iteration(A, max_iterations=max_iterations, tol=eig_tol, "
+                   "return_eigenvalue=True) - e.g. it forwards res_tol (float | None) as the tolerance", where=f_nh.where,
+                   construct="nonhermitian: fast-path argument forwarding", loc=f_nh.loc(),
+                   detail=short({k: v for k, v in seen[0][2].items()}) if seen else "")
         if ok:
             q, lam, res = out
             if not (isinstance(q, SymArr) and q.shape == (n,) and all(q[i].same(vh[i, 0]) for i in range(n))):
